@@ -164,9 +164,24 @@ def ukfc_case(g, tier):
         D = [[(d if i == j else 0.0) + (g.dyadic(-1, 1, 3) * 0.25 if r.random() < 0.5 else 0.0) for j in range(nz)] for i in range(m)]
         Df, Rf = U.fmat(D), U.fmat(R)
         Reff = round_mat(vlib.mmul(vlib.mmul(Df, Rf), vlib.mT(Df)))
+    # measurement channels in different units within one measurement vector (rad next to mm): rows of H (and of the
+    # noise input D) and the entries of y scaled by powers of two spanning up to 2^40 ~ 1e12; S stays as well
+    # conditioned as before once equilibrated
+    dchan = [1.0] * m
+    if r.random() < 0.3:
+        dchan = [2.0 ** r.randint(-20, 20) for _ in range(m)]
+        H = [[v * dchan[a] for v in H[a]] for a in range(m)]
+        y = [v * dchan[a] for a, v in enumerate(y)]
+        if variant == 0:
+            R = U.scale_cov(R, dchan)
+            Reff = R
+        else:
+            D = [[v * dchan[a] for v in D[a]] for a in range(m)]
+            Df, Rf = U.fmat(D), U.fmat(R)
+            Reff = round_mat(vlib.mmul(vlib.mmul(Df, Rf), vlib.mT(Df)))
     alpha, beta, kappa = U.rnd_params(g, n + nz)
     meta = {"op": "ukfc", "variant": variant, "n": n, "nz": nz, "m": m, "k": k, "alpha": alpha, "beta": beta, "kappa": kappa, "fail": fail, "online": online,
-            "H": H, "D": D, "R": R, "Reff": Reff, "y": y, "means": means, "Ps": Ps, "outw": outw, "pstyle": pstyle, "hstyle": hstyle, "scale": skind, "dup": dup}
+            "H": H, "D": D, "R": R, "Reff": Reff, "y": y, "means": means, "Ps": Ps, "outw": outw, "pstyle": pstyle, "hstyle": hstyle, "scale": skind, "dup": dup, "dchan": dchan}
     return meta
 
 
@@ -244,7 +259,8 @@ def derive_step(meta, g):
         sc = 2.0 ** SCALE_EXP.get(meta["scale"], 0)
         st["Ps"] = [U.scale_cov(U.rnd_psd(g, n, r.choice(["full", "full", "dyadic", "singular", "diag"])), [sc] * n) for _ in range(k)]
         st["means"] = [[v * sc for v in g.vec(n)] for _ in range(k)]
-        st["y"] = [v * sc for v in g.vec(meta["m"])]
+        dchan = meta.get("dchan") or [1.0] * meta["m"]
+        st["y"] = [v * sc * dchan[a] for a, v in enumerate(g.vec(meta["m"]))]
         st["fail"] = r.choice([0] * 8 + [1, 2, 3, 4])
         st["chg"] = 0
         if r.random() < 0.5:
@@ -252,10 +268,10 @@ def derive_step(meta, g):
             st["chg"] = 2
             m_ = meta["m"]
             if r.random() < 0.6:
-                st["H"] = g.mat(m_, n)
+                st["H"] = [[v * dchan[a] for v in row] for a, row in enumerate(g.mat(m_, n))]
             if meta["variant"] == 0:
                 if r.random() < 0.8:
-                    st["R"] = U.scale_cov(g.spd(m_, cond=10 ** r.uniform(0, 3)), [sc] * m_)
+                    st["R"] = U.scale_cov(g.spd(m_, cond=10 ** r.uniform(0, 3)), [sc * dchan[a] for a in range(m_)])
                 st["Reff"] = st["R"]
             else:
                 nz = meta["nz"]
@@ -263,7 +279,7 @@ def derive_step(meta, g):
                     st["R"] = U.scale_cov(g.spd(nz, cond=10 ** r.uniform(0, 3)), [sc] * nz)
                 if r.random() < 0.4:
                     d_ = r.choice([1.0, 0.5, 2.0])
-                    st["D"] = [[(d_ if i == j else 0.0) + (g.dyadic(-1, 1, 3) * 0.25 if r.random() < 0.5 else 0.0) for j in range(nz)] for i in range(m_)]
+                    st["D"] = [[((d_ if i == j else 0.0) + (g.dyadic(-1, 1, 3) * 0.25 if r.random() < 0.5 else 0.0)) * dchan[i] for j in range(nz)] for i in range(m_)]
                 Df, Rf = U.fmat(st["D"]), U.fmat(st["R"])
                 st["Reff"] = round_mat(vlib.mmul(vlib.mmul(Df, Rf), vlib.mT(Df)))
         elif meta["variant"] == 1 and meta["online"] and r.random() < 0.6:
@@ -272,7 +288,7 @@ def derive_step(meta, g):
             nz = m_ + r.choice([0, 1, 2])
             R = U.scale_cov(g.spd(nz, cond=10 ** r.uniform(0, 3)), [sc] * nz)
             d = r.choice([1.0, 0.5, 2.0])
-            D = [[(d if i == j else 0.0) + (g.dyadic(-1, 1, 3) * 0.25 if r.random() < 0.5 else 0.0) for j in range(nz)] for i in range(m_)]
+            D = [[((d if i == j else 0.0) + (g.dyadic(-1, 1, 3) * 0.25 if r.random() < 0.5 else 0.0)) * dchan[i] for j in range(nz)] for i in range(m_)]
             Df, Rf = U.fmat(D), U.fmat(R)
             st.update({"chg": 1, "nz": nz, "R": R, "D": D, "Reff": round_mat(vlib.mmul(vlib.mmul(Df, Rf), vlib.mT(Df)))})
     return st
@@ -635,22 +651,31 @@ def compare_ukfc(meta, o, kfd, mud, stats):
         t_y, t_S, t_C, rowsum = U.ut_tolerances(N, n, m, meta["alpha"], meta["beta"], meta["kappa"], A, b, Xi, mi, Nadd)
         Paug = U.blockdiag(meta["Ps"][i], meta["R"] if nz else [])
         tsq = U.C_SQRT * N * EPS * N * U.maxabs(Paug)
-        dY = max(t_y)
-        dS = max(t_S[a][c] + tsq * rowsum[a] * rowsum[c] for a in range(m) for c in range(m)) + 2 * EPS * vlib.fnorm(meta["Reff"])
-        dC = max(t_C[a][c] + tsq * rowsum[c] for a in range(n) for c in range(m))
         S = eS[i]
         Si = vlib.minv_frac(S)
         if Si is None:
             probs.append(("corr", "S-singular", "innovation covariance singular in exact arithmetic"))
             continue
-        nS, nSi = vlib.fnorm(S) * m, vlib.fnorm(Si) * m
+        # The correction is invariant under a rescaling of the measurement channels (y_a -> y_a / d_a, rows of H and
+        # D likewise): all bounds are evaluated in the equilibrated coordinates d_a = sqrt(S_aa), so that channels in
+        # very different units (rad next to mm) are judged by the conditioning of the equilibrated S, not by the
+        # ratio of the units.  Every rounding-error bound below is entrywise and is rescaled entry by entry.
+        dch = [math.sqrt(float(S[a][a])) if S[a][a] > 0 else 1.0 for a in range(m)]
+        dY = max(t_y[a] / dch[a] for a in range(m))
+        dS = max((t_S[a][c] + tsq * rowsum[a] * rowsum[c] + 2 * EPS * abs(float(meta["Reff"][a][c]))) / (dch[a] * dch[c]) for a in range(m) for c in range(m))
+        dC = max((t_C[a][c] + tsq * rowsum[c]) / dch[c] for a in range(n) for c in range(m))
+        Sp = [[float(S[a][c]) / (dch[a] * dch[c]) for c in range(m)] for a in range(m)]
+        Sip = [[float(Si[a][c]) * dch[a] * dch[c] for c in range(m)] for a in range(m)]
+        nS, nSi = vlib.fnorm(Sp) * m, vlib.fnorm(Sip) * m
         kS = max(1.0, nS * nSi)
         P = U.fmat(meta["Ps"][i])
         K = vlib.mmul(vlib.mmul(P, vlib.mT(H)), Si)
-        nK = vlib.fnorm(K) * m
+        nK = max([abs(float(K[r_][c])) * dch[c] for r_ in range(n) for c in range(m)] + [0.0]) * m
         nP = vlib.fnorm(P) * n
-        nnu = max([abs(float(v)) for v in enu[i]] + [0.0])
+        nnu = max([abs(float(enu[i][a])) / dch[a] for a in range(m)] + [0.0])
         nx_ = max([abs(float(v)) for v in meta["means"][i]] + [0.0])
+        nH = max([abs(float(H[a][c])) / dch[a] for a in range(m) for c in range(n)] + [0.0]) * max(n, m)
+        stats["max_channel_scale_ratio"] = max(stats.get("max_channel_scale_ratio", 0.0), max(dch) / min(dch))
         dK = (dC + nK * dS) * nSi + C_KF * EPS * kS * nK * max(n, m)
         tol_mean = m * dK * (nnu + dY) + nK * dY + C_KF * EPS * kS * (nK * nnu + nx_ + 1e-300) * max(n, m)
         tol_cov = 2 * nK * nS * dK * m + nK * nK * dS + C_KF * EPS * kS * (nK * nK * nS + nP) * max(n, m) + 1e-300
@@ -812,6 +837,8 @@ def run(ctx):
         hist["components=%d" % meta["k"]] = hist.get("components=%d" % meta["k"], 0) + 1
         hist["P=" + meta["pstyle"]] = hist.get("P=" + meta["pstyle"], 0) + 1
         hist["scale=" + meta.get("scale", "?")] = hist.get("scale=" + meta.get("scale", "?"), 0) + 1
+        if meta["op"] == "ukfc" and meta.get("dchan") and max(meta["dchan"]) != min(meta["dchan"]):
+            hist["measurement channels in mixed units"] = hist.get("measurement channels in mixed units", 0) + 1
         if meta.get("dup", "none") != "none" and meta.get("step", 0) == 0:
             hist["near-duplicate components:" + meta["dup"]] = hist.get("near-duplicate components:" + meta["dup"], 0) + 1
         first.append((probs, o, Bs))
